@@ -205,7 +205,7 @@ pub fn run(ctx: &mut Ctx) {
 			n,
 			|| {
 				(
-					gen::arb_value(gen::ValueCfg::SMALL),
+					prop_oneof![8 => gen::arb_value(gen::ValueCfg::SMALL), 1 => gen::arb_large_value(true)],
 					gen::arb_choices(),
 					proptest::collection::vec((any::<u16>(), arb_elements()), 1..=3),
 					proptest::collection::vec(gen::arb_mutation(), 0..=1),
